@@ -66,7 +66,7 @@ SPEC = r"""
         // an object is walked by ascending key
         (v matches Value::Object(o)) ==> (r matches Ok(ps) && ps@.len() == entries(v->Object_0.0.0@).len()
             && forall|i: int| 0 <= i < ps@.len() ==> (#[trigger] ps@[i]).1 == entries(v->Object_0.0.0@)[i].1
-                && (ps@[i].0.v matches Value::Str(bs) && bs@ == string_bytes(entries(v->Object_0.0.0@)[i].0))), // [C07:for_over_an_object_visits_its_properties_in_key_order]
+                && (ps@[i].0.v matches Value::Str(bs) && bs@ == string_bytes(entries(v->Object_0.0.0@)[i].0))), // [C07_C12:for_over_an_object_visits_its_properties_in_key_order]
 """
 
 
